@@ -265,6 +265,19 @@ def drive_siblings(ctx):
 
     from ..dataflow import expansions
 
+    def column_of(fn, a):
+        """a column of an (n, 2) array, however it is taken: `X[:, i]`, `X.T[i]`, or the i-th name of `x, y = X.T`  ->  `X[:, i]`"""
+        if isinstance(a, ast.Subscript) and isinstance(a.value, ast.Attribute) and a.value.attr == "T" and isinstance(a.slice, ast.Constant):
+            return f"{norm(a.value.value)}[:, {a.slice.value}]"
+        if isinstance(a, ast.Name):
+            for st in ast.walk(fn):
+                if isinstance(st, ast.Assign) and len(st.targets) == 1 and isinstance(st.targets[0], ast.Tuple) \
+                        and isinstance(st.value, ast.Attribute) and st.value.attr == "T":
+                    names = [getattr(t_, "id", None) for t_ in st.targets[0].elts]
+                    if a.id in names and sum(1 for t_ in ast.walk(fn) if isinstance(t_, ast.Name) and t_.id == a.id and isinstance(t_.ctx, ast.Store)) == 1:
+                        return f"{norm(st.value.value)}[:, {names.index(a.id)}]"
+        return norm(a)
+
     def describe(fn, expr, at):
         """every way the value can be computed, reduced to what matters: where A is evaluated, the scale, the components kept"""
         out = []
@@ -280,7 +293,7 @@ def drive_siblings(ctx):
             other_scale = [norm(b_)[:60] for b_ in ast.walk(e) if isinstance(b_, ast.BinOp) and isinstance(b_.op, (ast.Mult, ast.Div)) and inside(b_)
                            and b_ not in scaled]
             xy = [s_ for s_ in ast.walk(e) if isinstance(s_, ast.Subscript) and inside(s_.value) and norm(s_.slice).strip("()").replace(" ", "") == ":,:2"]
-            out.append({"at": [norm(a) for a in c.args], "keywords": sorted(k.arg or "**" for k in c.keywords),
+            out.append({"at": [column_of(fn, a) for a in c.args], "keywords": sorted(k.arg or "**" for k in c.keywords),
                         "time": [norm(k.value) for k in c.keywords if k.arg == "t"],
                         "scaled_once": len(scaled) == 1 and not other_scale, "xy": len(xy) == 1})
         return out
